@@ -3,6 +3,9 @@
 //   ratio <n> <d>                         etl::ratio<n,d>::num den           | std::ratio<n,d>::num den
 //   ratio_add/... <a> <b> <c> <d>         num den + "does the alias name ratio<num,den>" (etl | std)
 //   ratio_equal/... <a> <b> <c> <d>       value (etl | std)
+//   ksign <v> / kabs <v> / kgcd <m> <n> / kless <n1> <d1> <n2> <d2>
+//                                         detail::sign, etl::abs(long), etl::gcd(long, long), detail::ratio_less_impl
+//                                         called at RUN time on seeded 64-bit values | exact __int128 arithmetic
 // Template arguments must be constants: the ratio cases are looked up in the checked-in, generated
 // table ratio_table.inc (prop.py --regen); a case that is not in the table prints "notable".
 // Values are printed canonically: "b 0|1" bool, "i <n>" integer, "f <m> <e>" = m * 2^e with m odd,
@@ -10,7 +13,9 @@
 // static_assert translation units (prop.py extra_checks).
 #include "common.hpp"
 
+#include <etl/cstdint.hpp>
 #include <etl/limits.hpp>
+#include <etl/numeric.hpp>
 #include <etl/ratio.hpp>
 #include <etl/type_traits.hpp>
 
@@ -139,8 +144,13 @@ bool limits_cv(int cv, std::string const& m, Out& impl, Out& ref)
         ok = member<etl::numeric_limits, T const volatile>(m, impl) && member<std::numeric_limits, T const volatile>(m, ref);
         break;
     }
-    // `traps` is implementation-defined ([numeric.limits.members]); libstdc++ and libc++ differ on it
-    if (m == "traps") {
+    // `traps` is implementation-specific ([numeric.limits.members]: "true if, at the start of the program, there
+    // exists a value of the type that would cause an arithmetic operation using that value to trap").  For the
+    // integer types other than bool and for the floating-point types etl, libstdc++ and libc++ agree on x86-64
+    // (true: integer division by zero traps; false for floating point), so those are compared; for bool the
+    // libraries differ (libstdc++: true, like every integer type; etl and libc++: false, a bool operand is promoted
+    // to int before any arithmetic): no reference value there, and the specification leg has none for any type.
+    if (m == "traps" && std::is_same_v<T, bool>) {
         ref.s.clear();
         ref.tok("na");
     }
@@ -214,10 +224,95 @@ std::map<Key, Row const*> const& index()
     return m;
 }
 
+// exact reference arithmetic for the kernels
+i128 ref_gcd(i128 a, i128 b)
+{
+    if (a < 0) { a = -a; }
+    if (b < 0) { b = -b; }
+    while (b != 0) {
+        auto r = a % b;
+        a      = b;
+        b      = r;
+    }
+    return a;
+}
+
+constexpr long kmin = (-9223372036854775807L - 1);
+
+// is etl::abs(V) a constant expression (SFINAE on a default template argument)
+template <long V, long = etl::abs(V)>
+constexpr bool abs_is_constant(int)
+{
+    return true;
+}
+template <long V>
+constexpr bool abs_is_constant(...)
+{
+    return false;
+}
+static_assert(abs_is_constant<-5>(0));
+
+// the straight-line / loop kernels the ratio templates are assembled from, called at RUN time with values
+// from the seeded generator (the ratio templates themselves only take constants: ratio_table.inc)
+bool kernels(std::string const& op, vh::Toks& in, Out& impl, Out& ref)
+{
+    static_assert(std::is_same_v<etl::intmax_t, long>);
+    if (op == "ksign") {
+        long v = in.num();
+        static_assert(std::is_same_v<decltype(etl::detail::sign(v)), long>);
+        impl.tok("ok").num(etl::detail::sign(v));
+        if (v == 0) {
+            ref.tok("na");
+        } else {
+            ref.tok("ok").num(v < 0 ? -1 : 1);
+        }
+        return true;
+    }
+    if (op == "kabs") {
+        long v = in.num();
+        static_assert(std::is_same_v<decltype(etl::abs(v)), long>);
+        if (v == kmin) {
+            // signed overflow: undefined at run time, "not a constant expression" at compile time (the grid's
+            // ratio<INTMAX_MIN, d> rows must be rejected); asked of the constant evaluator here
+            constexpr bool is_constant = abs_is_constant<kmin>(0);
+            impl.tok(is_constant ? "ok-constant" : "illformed");
+            ref.tok("na");
+        } else {
+            impl.tok("ok").num(etl::abs(v));
+            ref.tok("ok").num(v < 0 ? -v : v);
+        }
+        return true;
+    }
+    if (op == "kgcd") {
+        long m = in.num();
+        long n = in.num();
+        static_assert(std::is_same_v<decltype(etl::gcd(m, n)), long>);
+        impl.tok("ok").num(etl::gcd(m, n));
+        if (m == kmin || n == kmin) {
+            ref.tok("na"); // [numeric.ops.gcd]: |m|, |n| must be representable
+        } else {
+            ref.tok("ok").big(ref_gcd(m, n));
+        }
+        return true;
+    }
+    if (op == "kless") {
+        long n1 = in.num();
+        long d1 = in.num();
+        long n2 = in.num();
+        long d2 = in.num();
+        if (d1 <= 0 || d2 <= 0) { return false; }
+        impl.tok("ok").num(etl::detail::ratio_less_impl(n1, d1, n2, d2) ? 1 : 0);
+        ref.tok("ok").num(static_cast<i128>(n1) * d2 < static_cast<i128>(n2) * d1 ? 1 : 0);
+        return true;
+    }
+    return false;
+}
+
 } // namespace
 
 bool vh::run_case(std::string const& op, Toks& in, Out& impl, Out& ref)
 {
+    if (op == "ksign" || op == "kabs" || op == "kgcd" || op == "kless") { return kernels(op, in, impl, ref); }
     if (op == "nl") {
         auto a  = in.str();
         auto cv = static_cast<int>(in.num());
